@@ -308,6 +308,19 @@ class Rewriter:
                         out.append('%s[%s]' % (self.rw(i, o - 2), self.rw(o + 1, end - 1)))
                         self.counts['get_unchecked_ref'] = self.counts.get('get_unchecked_ref', 0) + 1
                         prev_end = st[end - 1].b; i = end; continue
+            # (g) X.as_ptr().offset_from(Y.as_ptr()) as usize -> crate::vx::offset_in(X, Y)
+            if t.k == ID and (i == lo or st[i - 1].s not in ('.', ':')):
+                end = self._postfix_end(i, hi)
+                if end - i >= 8 and st[end - 1].s == ')' and end + 1 < hi and st[end].s == 'as' and st[end + 1].s == 'usize':
+                    o = match_open(st, end - 1)
+                    if st[o - 1].s == 'offset_from' and st[o - 2].s == '.' and st[o - 3].s == ')' and st[o - 4].s == '(' and st[o - 5].s == 'as_ptr' and st[o - 6].s == '.':
+                        inner_txt = self.rw(i, o - 6)
+                        # argument must be Y.as_ptr()
+                        if st[end - 2].s == ')' and st[end - 3].s == '(' and st[end - 4].s == 'as_ptr' and st[end - 5].s == '.':
+                            outer_txt = self.rw(o + 1, end - 5)
+                            out.append('crate::vx::offset_in(%s, %s)' % (inner_txt, outer_txt))
+                            self.counts['offset_from'] = self.counts.get('offset_from', 0) + 1
+                            prev_end = st[end + 1].b; i = end + 2; continue
             # (d) integer byte-order constructors
             if t.k == ID and t.s in ('u16', 'u32', 'u64') and i + 4 < hi and st[i + 1].s == ':' and st[i + 2].s == ':' \
                     and (t.s, st[i + 3].s) in INT_FNS and st[i + 4].s == '(':
